@@ -399,7 +399,7 @@ def run(tier, seed):
     laws = ['TypeOK', 'PrintParse', 'RedundantParens', 'ValueTotal', 'Export']
     quick = tier == 'quick'
     n_prec, n_lit = (5, 3) if quick else (7, 4)
-    sim_len, sim_min, sim_num = (9, 6, 250) if quick else (12, 8, 6000)
+    sim_len, sim_min, sim_num = (9, 6, 15) if quick else (12, 8, 150)
     procs = 6 if quick else 14
 
     # the three TLC runs are independent: run them side by side and bind
